@@ -742,15 +742,24 @@ def gen_float(rng):
         a = [[sum(rng.uniform(-3, 4) * box[r_][i] for r_ in range(3)) for i in range(3)] for _ in range(n)]
         return {"kind": "f-move", "dt": dt, "boxkind": kind, "box": box, "a": a, "seed": seed}
     if r < 0.82:
-        aniso = rng.random() < 0.12
-        if aniso:
-            lens = [rng.uniform(80, 200), rng.uniform(80, 200), rng.uniform(1, 6)]
+        mode = rng.choice(["plain", "plain", "aniso", "aniso", "near90", "near90", "f32"])
+        aniso = mode == "aniso"
+
+        def near90():
+            # log-uniform distance from 90 degrees between 1e-7 and 3 degrees, either side
+            return 90.0 + rng.choice([-1, 1]) * 10 ** rng.uniform(-7, 0.5)
+        if mode == "aniso":
+            # very anisotropic cells (ratios up to 1e4), angles at / near / far from 90 degrees
+            lens = [rng.uniform(50, 300), rng.uniform(50, 300), 10 ** rng.uniform(-1.5, 1)]
             rng.shuffle(lens)
-            angs = [rng.choice([90.0, rng.uniform(88.5, 91.5)]) for _ in range(3)]
+            angs = [rng.choice([90.0, near90(), rng.uniform(60, 120)]) for _ in range(3)]
+        elif mode == "near90":
+            lens = [rng.uniform(1, 100) for _ in range(3)]
+            angs = [rng.choice([90.0, near90(), near90()]) for _ in range(3)]
         else:
             lens = [rng.uniform(1, 100) for _ in range(3)]
             angs = [rng.choice([90.0, 90.0, 120.0, 60.0, rng.uniform(50, 130)]) for _ in range(3)]
-        return {"kind": "f-unitcell", "lens": lens, "angs": angs, "aniso": aniso, "seed": seed}
+        return {"kind": "f-unitcell", "lens": lens, "angs": angs, "aniso": aniso, "f32": mode == "f32", "seed": seed}
     # molecules wrapped across faces
     kind, box = _float_box(rng)
     mols = []
@@ -1289,7 +1298,8 @@ def _o_move(case):
 
 
 def _snapped(lens, angs):
-    """does the sum-scaled zeroing tolerance of vectors_from_unitcell remove a component that is genuinely non-zero?"""
+    """(classification of a repaired defect) would a zeroing tolerance scaled by the SUM of the cell lengths remove a
+    component that is genuinely non-zero?"""
     al, be, ga = (math.radians(x) for x in angs)
     la, lb, lc = lens
     comps = [(lb * math.cos(ga), lb), (lc * math.cos(be), lc),
@@ -1305,32 +1315,58 @@ def _o_unitcell(case):
     v = []
     lens, angs = case["lens"], case["angs"]
     rad = [math.radians(x) for x in angs]
+    if case.get("f32"):
+        # angles and lengths as float32 numbers (what trajectory readers hand over)
+        lens = [float(np.float32(x)) for x in lens]
+        rad = [float(np.float32(x)) for x in rad]
+        angs = [math.degrees(x) for x in rad]
     # a valid cell needs a positive volume
     ca, cb, cg = (math.cos(x) for x in rad)
     vol2 = 1 - ca * ca - cb * cb - cg * cg + 2 * ca * cb * cg
     if vol2 <= 0.02:
         return []
-    box = struc.vectors_from_unitcell(*lens, *rad)
+    if case.get("f32"):
+        box = struc.vectors_from_unitcell(*[np.float32(x) for x in lens], *[np.float32(x) for x in rad])
+    else:
+        box = struc.vectors_from_unitcell(*lens, *rad)
+    eps = 2.0 ** -23
+    snap = 2e-6          # components below 1e-6 of their own vector may be set to zero
+    bx = np.asarray(box, dtype=np.float64)
+    # ---- textbook definition: row lengths and the angles between the rows (alpha = b^c, beta = a^c, gamma = a^b)
+    bad = []
+    norms = [float(np.linalg.norm(bx[i])) for i in range(3)]
+    for i in range(3):
+        if abs(norms[i] - lens[i]) > (32 * eps + snap) * lens[i]:
+            bad.append(f"|vector {i}| = {norms[i]!r}, cell length {lens[i]!r}")
+    for name, (i, j), want in (("alpha", (1, 2), ca), ("beta", (0, 2), cb), ("gamma", (0, 1), cg)):
+        got = float(bx[i] @ bx[j]) / (norms[i] * norms[j])
+        if abs(got - want) > 32 * eps / math.sqrt(vol2) + snap:
+            bad.append(f"cos {name} = {got!r}, cell says {want!r}")
+    if bad:
+        key = K_UNITCELL_SNAP if _snapped(lens, angs) else "C15/vectors_from_unitcell/differs-from-textbook"
+        v.append((key, f"cell {lens} {angs} -> {box.tolist()}: " + "; ".join(bad)))
+    # lower-triangular convention, a along x, b in the xy plane
+    if not (box[0][1] == 0 and box[0][2] == 0 and box[1][2] == 0 and box[1][1] > 0 and box[2][2] > 0):
+        v.append(("C15/vectors_from_unitcell/convention", f"{box.tolist()}"))
+    # ---- documented inverse: unitcell_from_vectors(vectors_from_unitcell(cell)) == cell
     back = struc.unitcell_from_vectors(box)
-    tol_len = 64 * 2.0 ** -23
-    tol_ang = 64 * 2.0 ** -23 / math.sqrt(vol2)
+    tol_ang = 64 * eps / math.sqrt(vol2) + snap
     bad = []
     for i in range(3):
-        if abs(float(back[i]) - lens[i]) > tol_len * max(lens):
+        if abs(float(back[i]) - lens[i]) > (64 * eps + snap) * lens[i]:
             bad.append(f"length {i}: {lens[i]!r} -> {float(back[i])!r}")
-        if abs(float(back[3 + i]) - rad[i]) > tol_ang * (max(lens) / min(lens)):
+        if abs(float(back[3 + i]) - rad[i]) > tol_ang:
             bad.append(f"angle {i}: {angs[i]!r} deg -> {math.degrees(float(back[3 + i]))!r} deg")
     if bad:
         key = K_UNITCELL_SNAP if _snapped(lens, angs) else "C15/unitcell_from_vectors/not-inverse-of-vectors_from_unitcell"
         v.append((key, f"cell {lens} {angs}: " + "; ".join(bad)))
-    # textbook: lower-triangular convention, a along x, b in the xy plane
-    if not (box[0][1] == 0 and box[0][2] == 0 and box[1][2] == 0 and box[1][1] > 0 and box[2][2] > 0):
-        v.append(("C15/vectors_from_unitcell/convention", f"{box.tolist()}"))
-    # the round trip the other way: vectors -> cell -> vectors
-    box2 = struc.vectors_from_unitcell(*[float(x) for x in back])
-    if not _snapped([float(x) for x in back[:3]], [math.degrees(float(x)) for x in back[3:]]) and not _snapped(lens, angs):
-        if float(np.abs(box2.astype(float) - box.astype(float)).max()) > 256 * 2.0 ** -23 * max(lens) / math.sqrt(vol2):
-            v.append(("C15/vectors_from_unitcell/not-inverse-of-unitcell_from_vectors", f"{box.tolist()} -> {box2.tolist()}"))
+    # ---- and the other way round: vectors -> cell -> vectors, every row judged relative to its own length
+    box2 = np.asarray(struc.vectors_from_unitcell(*[float(x) for x in back]), dtype=np.float64)
+    for i in range(3):
+        if float(np.abs(box2[i] - bx[i]).max()) > (256 * eps / math.sqrt(vol2) + 2 * snap) * lens[i]:
+            key = K_UNITCELL_SNAP if _snapped(lens, angs) else "C15/vectors_from_unitcell/not-inverse-of-unitcell_from_vectors"
+            v.append((key, f"row {i}: {box.tolist()} -> {box2.tolist()}"))
+            break
     return v
 
 
